@@ -165,6 +165,8 @@ struct Gen<'a> {
     /// names declared in blocks that are closed by now
     popped: Vec<String>,
     block_kinds: Vec<&'static str>,
+    /// set when `expr` returned something that mentions a non-local variable (mutable, or bound to a non-local value)
+    taint: bool,
 }
 
 const REGEXES: &[(&str, usize)] = &[
@@ -262,7 +264,11 @@ impl<'a> Gen<'a> {
         // locals of that type
         let cands = self.lookup_locals(&|l| l.ty == ty && (!need_local || l.local));
         if !cands.is_empty() && self.r.chance(1, 3) {
-            return self.r.pick(&cands).name.clone();
+            let l = self.r.pick(&cands).clone();
+            if !l.local {
+                self.taint = true;
+            }
+            return l.name;
         }
         // globals
         let gs: Vec<String> = self.globals.iter().filter(|g| g.1 == ty).map(|g| g.0.clone()).collect();
@@ -394,7 +400,11 @@ impl<'a> Gen<'a> {
             Ty::GNode => {
                 let cands = self.lookup_locals(&|l| l.ty == Ty::GNode && (!need_local || l.local));
                 if !cands.is_empty() && self.r.chance(3, 4) {
-                    return self.r.pick(&cands).name.clone();
+                    let l = self.r.pick(&cands).clone();
+                    if !l.local {
+                        self.taint = true;
+                    }
+                    return l.name;
                 }
                 if !need_local && self.opts.universal && self.r.chance(1, 2) {
                     if let Some(s) = self.syn_expr(false) {
@@ -418,7 +428,11 @@ impl<'a> Gen<'a> {
         let cands = self.lookup_locals(&|l| l.ty == Ty::Syn && (!need_local || l.local));
         let caps = self.captures_with(&|q| q == CaptureQuantifier::One);
         if !cands.is_empty() && (caps.is_empty() || self.r.chance(1, 2)) {
-            return Some(self.r.pick(&cands).name.clone());
+            let l = self.r.pick(&cands).clone();
+            if !l.local {
+                self.taint = true;
+            }
+            return Some(l.name);
         }
         if !caps.is_empty() {
             let c = self.r.pick(&caps).clone();
@@ -431,7 +445,11 @@ impl<'a> Gen<'a> {
         let cands = self.lookup_locals(&|l| l.ty == Ty::SynList && (!need_local || l.local));
         let caps = self.captures_with(&|q| q == CaptureQuantifier::ZeroOrMore || q == CaptureQuantifier::OneOrMore);
         if !cands.is_empty() && (caps.is_empty() || self.r.chance(1, 2)) {
-            return Some(self.r.pick(&cands).name.clone());
+            let l = self.r.pick(&cands).clone();
+            if !l.local {
+                self.taint = true;
+            }
+            return Some(l.name);
         }
         if !caps.is_empty() {
             let c = self.r.pick(&caps).clone();
@@ -488,12 +506,14 @@ impl<'a> Gen<'a> {
                 self.feature("shorthand-use");
                 let sh = self.r.pick(&self.shorthands.clone()).clone();
                 if sh == "shref" {
-                    match self.syn_expr(false) {
-                        Some(sx) if !items.iter().any(|i: &String| i.starts_with("shref ")) => {
+                    // (the guard comes first: `syn_expr` records the capture it returns as used)
+                    let sx = if items.iter().any(|i: &String| i.starts_with("shref ")) { None } else { self.syn_expr(false) };
+                    match sx {
+                        Some(sx) => {
                             self.feature("shorthand-over-scoped-read");
                             items.push(format!("shref = {}.gn", sx));
                         }
-                        _ => items.push("flag".to_string()),
+                        None => items.push("flag".to_string()),
                     }
                 } else {
                     items.push(format!("{} = {}", sh, self.expr(Ty::Str, depth, false)));
@@ -833,14 +853,16 @@ impl<'a> Gen<'a> {
             2 => {
                 let ty = *self.r.pick(&[Ty::Int, Ty::Str, Ty::Bool, Ty::IntList, Ty::StrList, Ty::SynList, Ty::Syn, Ty::OptSyn]);
                 let v = self.fresh("v");
+                self.taint = false;
                 let text = self.expr(ty, 2, false);
+                let tainted = self.taint;
                 // the checker's view of the bound value
                 let is_capture = text.starts_with('@');
                 let is_literal_list = text.starts_with('[');
                 let list_q = matches!(ty, Ty::IntList | Ty::StrList | Ty::SynList) && (is_capture || is_literal_list);
                 let opt_q = ty == Ty::OptSyn && is_capture;
                 let local = !text.contains('.') || text.starts_with('"');
-                self.declare(&v, ty, false, local && !text.contains("(node)"), list_q, opt_q);
+                self.declare(&v, ty, false, local && !tainted && !text.contains("(node)"), list_q, opt_q);
                 self.feature("let");
                 format!("{}let {} = {}\n", pad, v, text)
             }
@@ -1060,6 +1082,7 @@ pub fn gen_program(r: &mut Rng, pool: &[Pattern], opts: &Opts) -> Program {
         sf: None,
         popped: vec![],
         block_kinds: vec![],
+        taint: false,
     };
     let mut static_pending = opts.static_fault != 0;
     // header- and stanza-level violations are chosen up front
